@@ -1,6 +1,7 @@
 package lexer
 
 import (
+	"text/scanner"
 	"fmt"
 	"regexp"
 	"strings"
@@ -22,6 +23,11 @@ func specExpandBackrefs(input string, groups []string) (string, bool) {
 		if n >= len(groups) {
 			ok = false
 			return s
+		}
+		// the text of the group as one unit: a group of several characters (or none) needs the non-capturing
+		// wrapper for that, a single character is a unit as it stands (and may then appear in a bracket expression)
+		if utf8.RuneCountInString(groups[n]) == 1 {
+			return m[1][:len(m[1])-1] + regexp.QuoteMeta(groups[n])
 		}
 		return m[1][:len(m[1])-1] + "(?:" + regexp.QuoteMeta(groups[n]) + ")"
 	})
@@ -327,6 +333,26 @@ func TestVerif_C04C06C15_TextScanner(t *testing.T) {
 			} else if d, _, _ := run(l, in); d != a {
 				res.violate("input %q: TextScannerLexer.Lex gives %s, LexString gives %s", in, d, a)
 			}
+			// a caller-supplied scanner that does not treat scan errors as fatal (LexWithScanner): still lossless
+			{
+				var sc scanner.Scanner
+				sc.Init(strings.NewReader(in))
+				sc.Error = func(*scanner.Scanner, string) {}
+				lx := LexWithScanner("file", &sc)
+				off := 0
+				for i := 0; i <= len(in)+2; i++ {
+					tok, err := lx.Next()
+					if err != nil || tok.EOF() {
+						break
+					}
+					o := tok.Pos.Offset
+					if o < off || o+len(tok.Value) > len(in) || in[o:o+len(tok.Value)] != tok.Value {
+						res.violate("input %q through LexWithScanner with a lenient scanner: token %q claims offset %d (previous token ended at %d)", in, tok.Value, o, off)
+						break
+					}
+					off = o + len(tok.Value)
+				}
+			}
 			// two lexers of the one default definition alive at once, stepped alternately: each sees its own input
 			if len(in) >= 2 {
 				other := in[1:] + in[:1]
@@ -404,6 +430,67 @@ func TestVerif_C03_BackrefLiteral(t *testing.T) {
 		}
 		if m := re.FindString(g + g[len(g)-1:] + ";"); len(g) > 1 && m != "" {
 			res.violate("BackrefRegex(`\\1+;`, group %q) matches %q, a repetition of the last character only", g, m)
+		}
+	}
+	// through the constructor: back-references that the regexp package would also accept as something else (\0 as
+	// NUL, \12 as an octal escape) are back-references all the same
+	for _, c := range []struct{ open, close, in, want string }{
+		{`<(a)`, `\1>`, "<aa>", "Open:<a Close:a>"},
+		{`<(a)`, `\0`, "<a<a", "Open:<a Close:<a"},
+		{`<(a)`, `\12`, "<aa2", "Open:<a Close:a2"},
+		{`<(a)(b)`, `\2\1\0`, "<abba<ab", "Open:<ab Close:ba<ab"},
+	} {
+		res.Evaluations++
+		res.Distinct++
+		def, err := New(Rules{"Root": {{"Open", c.open, Push("In")}}, "In": {{"Close", c.close, Pop()}}})
+		if err != nil {
+			res.violate("New with the closing rule %s: %v", c.close, err)
+			continue
+		}
+		names := map[TokenType]string{}
+		for n, ty := range def.Symbols() {
+			names[ty] = n
+		}
+		l, _ := def.LexString("", c.in)
+		var got []string
+		for i := 0; i < 4; i++ {
+			tok, err := l.Next()
+			if err != nil {
+				got = append(got, "error:"+err.Error())
+				break
+			}
+			if tok.EOF() {
+				break
+			}
+			got = append(got, names[tok.Type]+":"+tok.Value)
+		}
+		if strings.Join(got, " ") != c.want {
+			res.violate("closing rule %s after %s on %q lexes to %q, want %q", c.close, c.open, c.in, strings.Join(got, " "), c.want)
+		}
+	}
+	// a one-character group inside a bracket expression: the class of everything but that character
+	if def, err := New(Rules{"Root": {{"Open", `(['"])`, Push("String")}}, "String": {{"Close", `\1`, Pop()}, {"Chars", `[^\1]+`, nil}}}); err != nil {
+		res.violate("New with [^\\1]+: %v", err)
+	} else {
+		for in, want := range map[string]string{`'c"d'`: `' c"d '`, `"a(b"`: `" a(b "`, `'a:b?)'`: `' a:b?) '`, `""`: `" "`} {
+			res.Evaluations++
+			res.Distinct++
+			l, _ := def.LexString("", in)
+			var got []string
+			for i := 0; i < 5; i++ {
+				tok, err := l.Next()
+				if err != nil {
+					got = append(got, "error:"+err.Error())
+					break
+				}
+				if tok.EOF() {
+					break
+				}
+				got = append(got, tok.Value)
+			}
+			if strings.Join(got, " ") != want {
+				res.violate("[^\\1]+ after (['\"]) on %q lexes to %q, want %q", in, strings.Join(got, " "), want)
+			}
 		}
 	}
 	res.emit(t)
